@@ -553,8 +553,8 @@ static size_t snap_sched(char *b, size_t cap, size_t pos, const char *nm, ABTI_s
     for (size_t i = 0; i < is->num_pools && i < 4; i++)
         pos += sn(b, cap, pos, "%p,", (void *)is->pools[i]);
     if (is->p_ythread)
-        pos += sn(b, cap, pos, " ytpool=%p ytunit=%p ytst=%d", (void *)is->p_ythread->thread.p_pool,
-                  (void *)is->p_ythread->thread.unit, (int)ABTD_atomic_acquire_load_int(&is->p_ythread->thread.state));
+        pos += sn(b, cap, pos, " ytpool=%p ytunit=%p", (void *)is->p_ythread->thread.p_pool,
+                  (void *)is->p_ythread->thread.unit);
     pos += sn(b, cap, pos, "\n");
     return pos;
 }
@@ -1550,7 +1550,19 @@ static void g_as_fin(void)
             OK(ABT_pool_free(&s_pool));
             break;
         case O_SELF_SETASSOC: OK(ABT_self_set_associated_pool(p_main)); break;
-        case O_MIG_YIELD: break;
+        case O_MIG_YIELD: {
+            /* go back to the primary stream's pool: a ULT that busy-waits (join of a tasklet) in a pool of
+             * stream 2 would starve the pools behind it in that stream's priority scheduler */
+            ABT_thread me;
+            ABT_pool now = ABT_POOL_NULL;
+            OK(ABT_self_get_thread(&me));
+            OK(ABT_thread_migrate_to_pool(me, p_main));
+            OK(ABT_thread_yield());
+            OK(ABT_self_get_last_pool(&now));
+            if (now != p_main)
+                problem("use_result: migration back to the main pool did not happen");
+            break;
+        }
     }
 }
 
@@ -2100,6 +2112,13 @@ int main(int argc, char **argv)
             __real_pthread_join(th, NULL);
         } else {
             body(NULL);
+        }
+        if (n_probs) {
+            /* the run has already failed: report now.  Tearing down a runtime that the failed call damaged
+             * (a stream that can no longer be freed, a scheduler stuck in the MAIN state) would only replace the
+             * precise problems by an assertion failure of ABT_finalize */
+            emit();
+            _exit(0);
         }
         world_teardown();
         free_drained();
